@@ -1,7 +1,7 @@
 (* Single entry point of the extracted model runner: (tag arg) -> result. *)
 From Coq Require Import List NArith ZArith Bool String.
 Import ListNotations.
-From Indi Require Import Base.Sx Msg.Equality Router.Run Driver.SwitchRun Xml.Lex Msg.Run Num.Run Buffer.Run.
+From Indi Require Import Base.Sx Msg.Equality Router.Run Driver.SwitchRun Xml.Lex Msg.Run Num.Run Buffer.Run Driver.Run.
 
 Definition dispatch (x : sx) : sx :=
   match x with
@@ -17,6 +17,8 @@ Definition dispatch (x : sx) : sx :=
       else if str_eqb t (s2l "codec") then run_codec arg
       else if str_eqb t (s2l "num") then run_num arg
       else if str_eqb t (s2l "buffer") then run_buffer arg
+      else if str_eqb t (s2l "driver") then run_driver arg
+      else if str_eqb t (s2l "drivers") then run_drivers arg
       else tag "UNKNOWN-ENTRY"
   | _ => bad_input
   end.
